@@ -870,6 +870,74 @@ pub(super) async fn generate_block_txs<S: StateRead>(
             }
         }
     }
+    // one withdrawal event id used by two withdrawals that are both constructed against the start-of-block state
+    // (two transactions of the withdrawer in one block, or two actions of one transaction), in every pairing of kinds
+    if matches!(profile, "bridge" | "ibc" | "mixed" | "ledger" | "atomic") && rng.gen_bool(0.3) {
+        let bl = bridges(u, state).await;
+        if let Some(&b) = bl.choose(rng) {
+            if let Some(w) = key_for(u, state, "bridge_withdrawer", Some(b)).await {
+                let basset = match state.get_bridge_account_ibc_asset(&u.accts[b].addr).await {
+                    Ok(x) => u.assets.iter().find(|d| d.to_ibc_prefixed() == x).cloned(),
+                    Err(_) => None,
+                };
+                let fee_asset = pick_fee_asset(u, rng, state, false).await;
+                let ev = u.next_event_id(b);
+                let mut mk = |rng: &mut ChaChaRng, second: bool| -> (Action, &'static str) {
+                    let which = if second { rng.gen_range(0..3) } else { rng.gen_range(0..2) };
+                    match (which, basset.clone()) {
+                        (0, _) | (_, None) => (
+                            Action::BridgeUnlock(BridgeUnlock {
+                                to: u.accts[2].address(), amount: 1 + u128::from(second), fee_asset: fee_asset.clone(), bridge_address: u.accts[b].address(),
+                                memo: "m".into(), rollup_block_number: 3, rollup_withdrawal_event_id: ev.clone(),
+                            }),
+                            "unlock",
+                        ),
+                        (_, Some(denom)) => (
+                            Action::Ics20Withdrawal(Ics20Withdrawal {
+                                amount: 1 + u128::from(second),
+                                denom,
+                                destination_chain_address: "counterparty1receiver".into(),
+                                return_address: u.accts[b].address(),
+                                timeout_height: ibc_types::core::client::Height::new(2, 1_000_000).unwrap(),
+                                timeout_time: 4_000_000_000_000_000_000,
+                                source_channel: ibc_types::core::channel::ChannelId::new(super::ibc::CHANNELS[0].0),
+                                fee_asset: fee_asset.clone(),
+                                memo: serde_json::to_string(&astria_core::protocol::memos::v1::Ics20WithdrawalFromRollup {
+                                    rollup_block_number: 3,
+                                    rollup_withdrawal_event_id: ev.clone(),
+                                    rollup_return_address: "0xrollupreturn".into(),
+                                    memo: "m".into(),
+                                })
+                                .unwrap(),
+                                bridge_address: Some(u.accts[b].address()),
+                                use_compat_address: false,
+                            }),
+                            "ics20",
+                        ),
+                    }
+                };
+                let (a1, k1) = mk(rng, false);
+                let (a2, k2) = mk(rng, true);
+                let base = match next_nonce.get(&w) {
+                    Some(n) => *n,
+                    None => state.get_account_nonce(&u.accts[w].addr).await.unwrap_or(0),
+                };
+                if rng.gen_bool(0.3) {
+                    if let Some(t) = build_tx(w, &u.accts[w].key, base, vec![a1, a2], &format!("same_event_pair:one_tx:{k1}+{k2}")) {
+                        next_nonce.insert(w, base + 1);
+                        out.push(t);
+                    }
+                } else {
+                    for (k, a) in [a1, a2].into_iter().enumerate() {
+                        if let Some(t) = build_tx(w, &u.accts[w].key, base + k as u32, vec![a], &format!("same_event_pair:two_txs:{k1}+{k2}:{k}")) {
+                            next_nonce.insert(w, base + k as u32 + 1);
+                            out.push(t);
+                        }
+                    }
+                }
+            }
+        }
+    }
     // replay of the exact bytes of an earlier committed transaction
     if !committed.is_empty() && rng.gen_bool(0.3) {
         let mut r = committed[rng.gen_range(0..committed.len())].clone();
